@@ -26,11 +26,20 @@ class SubKey(KeyError):
     pass
 
 
+class FalsyErr(ValueError, KeyError):
+    """an exception whose instances are falsy (an empty 'collection of problems'): still an exception that was raised"""
+    def __bool__(self):
+        return False
+
+    def __len__(self):
+        return 0
+
+
 CONFIGS = {
     # name: (exc_type or None for the default, retryable classes, other classes)
-    "default": (None, [ValueError, KeyError, MyErr], [OtherBase]),
-    "keyerror": (KeyError, [KeyError, SubKey], [ValueError, LookupError, OtherBase]),
-    "tuple": ((KeyError, ValueError), [KeyError, ValueError, SubKey], [MyErr, OtherBase]),
+    "default": (None, [ValueError, KeyError, MyErr, FalsyErr, FalsyErr], [OtherBase]),
+    "keyerror": (KeyError, [KeyError, SubKey, FalsyErr], [ValueError, LookupError, OtherBase]),
+    "tuple": ((KeyError, ValueError), [KeyError, ValueError, SubKey, FalsyErr], [MyErr, OtherBase]),
 }
 
 
